@@ -37,6 +37,15 @@ def hand_cases():
             cand = [[] for _ in dag2]
             cand[0] = [["+", two, two], [a, [b, ["u"]]]]
             out.append({"dag": dag2, "route": "construct_pruned", "arrows": [], "typed": True, "cand": cand, "hand": "sum keeps its width when one arm is pruned"})
+    # unpopulated witnesses of zero-width types that are not the unit type (1 x 1, (1 x 1) x 1): finalisation must fill them with
+    # a value of the node's type, on an executed node and on both finalisers
+    for dag3 in ([["witness", 0, 0], ["unit", 0, 0], ["take", 2, 0], ["comp", 1, 3]],
+                 [["witness", 0, 0], ["unit", 0, 0], ["drop", 2, 0], ["take", 3, 0], ["comp", 1, 4]],
+                 [["witness", 0, 0], ["iden", 0, 0], ["unit", 0, 0], ["pair", 2, 3], ["unit", 0, 0], ["case", 5, 5], ["comp", 4, 6], ["comp", 1, 7]]):
+        for route in ("construct_unpruned", "construct_pruned"):
+            cand = [[] for _ in dag3]
+            cand[0] = ["none"]
+            out.append({"dag": dag3, "route": route, "arrows": [], "typed": True, "cand": cand, "hand": "unpopulated witness"})
     return out
 
 def judge0(case, g):
@@ -62,7 +71,7 @@ def judge0(case, g):
     # the types of the produced program's witnesses are the inferred ones
     exp = [a[1] for nd, a in zip(case["dag"], case["arrows"]) if nd[0] == "witness"]
     got = [w["target"] for w in ins["witnesses"]]
-    if case["route"].endswith("unpruned") and sorted(map(json.dumps, got)) != sorted(map(json.dumps, exp)):
+    if case["arrows"] and case["route"].endswith("unpruned") and sorted(map(json.dumps, got)) != sorted(map(json.dumps, exp)):      # (hand cases carry no arrows)
         return ("c12:targets", "witness targets %s, spec %s" % (got, exp))
     return None
 
